@@ -33,14 +33,14 @@ func closureBinding(parent, closure *ssa.Function, name string) string {
 	if ei := envMethods[closure]; ei != nil {
 		// method form: the receiver is bound to the parent's struct variable by
 		// reference (pointer receiver) and the field is that variable's field
-		mc := envMakeClosure(parent, closure)
-		if mc == nil || len(mc.Bindings) != 1 || !ei.ptrRecv {
+		bnd := envBinding(parent, closure)
+		if bnd == nil || !ei.ptrRecv {
 			return ""
 		}
-		if a, ok := mc.Bindings[0].(*ssa.Alloc); ok && envStructPtr(a.Type()) != nil {
+		if a, ok := bnd.(*ssa.Alloc); ok && envStructPtr(a.Type()) != nil {
 			return "alloc:" + name
 		}
-		return mc.Bindings[0].Name()
+		return bnd.Name()
 	}
 	for _, b := range parent.Blocks {
 		for _, in := range b.Instrs {
@@ -81,11 +81,11 @@ func closureFreeInit(parent, closure *ssa.Function, freeName string) []ssa.Value
 		return structFieldInit(a, freeName)
 	}
 	if envMethods[closure] != nil {
-		mc := envMakeClosure(parent, closure)
-		if mc == nil || len(mc.Bindings) != 1 {
+		bnd := envBinding(parent, closure)
+		if bnd == nil {
 			return nil
 		}
-		return structFieldInit(mc.Bindings[0], freeName)
+		return structFieldInit(bnd, freeName)
 	}
 	for _, b := range parent.Blocks {
 		for _, in := range b.Instrs {
@@ -139,6 +139,38 @@ func findMakeClosure(fn *ssa.Function, qual string) *ssa.MakeClosure {
 		return nil
 	}
 	return find(fn, 0)
+}
+
+// envBinding: the receiver value parent binds to the method that stands for a
+// closure: the binding of the method value, or the receiver argument of a
+// direct `defer x.m()` / `go x.m()`.
+func envBinding(parent, m *ssa.Function) ssa.Value {
+	if mc := envMakeClosure(parent, m); mc != nil && len(mc.Bindings) == 1 {
+		return mc.Bindings[0]
+	}
+	if parent == nil {
+		if ei := envMethods[m]; ei != nil {
+			parent = ei.parent
+		}
+	}
+	if parent == nil {
+		return nil
+	}
+	for _, b := range parent.Blocks {
+		for _, in := range b.Instrs {
+			switch x := in.(type) {
+			case *ssa.Defer:
+				if x.Call.StaticCallee() == m && len(x.Call.Args) > 0 {
+					return x.Call.Args[0]
+				}
+			case *ssa.Go:
+				if x.Call.StaticCallee() == m && len(x.Call.Args) > 0 {
+					return x.Call.Args[0]
+				}
+			}
+		}
+	}
+	return nil
 }
 
 // envMakeClosure: where parent binds the method that stands for a closure.
